@@ -168,7 +168,7 @@ func runC12(t *testing.T, onDisk bool) {
 	defer vt.Watch("TestC12Lockstep", 180*time.Second)()
 	rec := vt.For("C12")
 	rec.Rule(c12Rule())
-	rapid.Check(t, func(rt *rapid.T) {
+	check(t, func(rt *rapid.T) {
 		rapid.SyncTest(rt, func(rt *rapid.T) {
 			mem := memory.New()
 			dir := ""
